@@ -27,7 +27,8 @@ LEVEL = "other"
 def check(ctx):
     for rid, text in (("R-C09.1", "maximal munch for all strings; punctuators; spelling = matched slice"), ("R-C09.2", "fixed-token bucket discipline"),
                       ("R-C09.3", "identifier classification order"), ("R-C09.4", "line / column bookkeeping across newlines"),
-                      ("R-C09.5", "progress of the scanning loops"), ("R-C09.6", "sibling agreement of the hand-written directive scanners")):
+                      ("R-C09.5", "progress of the scanning loops"), ("R-C09.6", "sibling agreement of the hand-written directive scanners"),
+                      ("R-C09.7", "input() starts from a clean cursor: every attribute the scanning paths write (position, line, file, pending token) is re-initialised, so no token of an earlier text is returned")):
         ctx.rule(rid, text)
     m = LM.LexModel()
     T = LM.TokAutomaton(m)
@@ -164,6 +165,27 @@ def check(ctx):
 
     # ---- R-C09.6 ---------------------------------------------------------------------------
     scanner_sibling_rules(ctx, "R-C09.6", "R-C09.6")
+
+    # ---- R-C09.7 (reset-dominance analysis shared with C12) ----------------------------
+    from .. import stateflow as F
+    from . import c12
+    mods = S.all_modules()
+    all_classes = {}
+    for m_ in mods:
+        all_classes.update(F.classes(m_))
+    lcls = all_classes.get("CLexer")
+    if lcls is None or "input" not in lcls.methods:
+        raise AnalysisError("anchor CLexer.input vanished")
+    state, _ = c12.state_inventory(lcls)
+    scan = c12.ResetScan(lcls, all_classes, c12.attr_types(mods, all_classes))
+    assigned, _ = scan.scan(lcls.methods["input"])
+    for attr in sorted(state):
+        ok = attr in assigned
+        ctx.oblige("R-C09.7", f"CLexer.{attr} re-initialised by input()", ok, sample={"rule": "R-C09.7", "attribute": attr, "written in": sorted({m__ for m__, _, _ in state[attr]}), "verdict": "reset" if ok else "NOT RESET"})
+        if not ok:
+            ctx.violation("R-C09.7", f"noreset:{attr}", f"CLexer.{attr} is written while scanning ({sorted({m__ for m__, _, _ in state[attr]})}) but input() does not re-initialise it: after new text is supplied the lexer can return a token (or a position) left over from the previous text",
+                          file=lx.rel if "lx" in dir() else "pycparser/c_lexer.py", function="CLexer.input")
+    ctx.require_instances("R-C09.7", 5)
     ctx.require_instances("R-C09.1", 45)
     ctx.require_instances("R-C09.2", 60)
     ctx.require_instances("R-C09.5", 8)
